@@ -15,7 +15,7 @@ ASSUMPTIONS = [
 MENU = ["leaf:n", "leaf:re", "leaf:sh", "item:c", "shape:T", "shape:D", "shape:nest", "shape:wrap1",
         "ins:raise", "ins:res", "ins:sync", "ins:yempty", "ins:ynone", "ins:probe", "ins:mkitem", "ins:mkchild",
         "wrap:try", "wrap:A", "wrap:S0"]
-CATS = ["outcome-mismatch", "value-shape", "schedule-disagree", "spurious-error", "hang", "worker-died"]
+CATS = ["outcome-mismatch", "value-shape", "schedule-disagree", "spurious-error", "probe-mismatch", "hang", "worker-died"]
 CONVS_ALL = ["call", "av", "yielded", "async_call", "async_call_sync"]
 
 LADDER = {
